@@ -86,3 +86,154 @@ func refUDP(f []byte) (d dUDP, ok bool) {
 	}
 	return dUDP{sport: uint16(u16(f, 0)), dport: uint16(u16(f, 2)), length: n, cksum: u16(f, 6), payload: f[8:n]}, true
 }
+
+type dIP6 struct {
+	class    int
+	flow     int
+	plen     int
+	next     byte
+	hop      byte
+	src, dst []byte
+	payload  []byte
+}
+
+func refIP6(f []byte) (d dIP6, ok bool) {
+	if len(f) < 40 || f[0]>>4 != 6 {
+		return d, false
+	}
+	pl := u16(f, 4)
+	if 40+pl > len(f) {
+		return d, false
+	}
+	return dIP6{class: int(f[0]&0x0f)<<4 | int(f[1]>>4), flow: int(f[1]&0x0f)<<16 | int(f[2])<<8 | int(f[3]),
+		plen: pl, next: f[6], hop: f[7], src: f[8:24], dst: f[24:40], payload: f[40 : 40+pl]}, true
+}
+
+type dARP struct {
+	op                 uint16
+	sha, spa, tha, tpa []byte
+}
+
+func refARP(f []byte) (d dARP, ok bool) {
+	if len(f) < 28 || u16(f, 0) != 1 || u16(f, 2) != 0x0800 || f[4] != 6 || f[5] != 4 {
+		return d, false
+	}
+	return dARP{op: uint16(u16(f, 6)), sha: f[8:14], spa: f[14:18], tha: f[18:24], tpa: f[24:28]}, true
+}
+
+type dEcho struct {
+	typ, code byte
+	cksum     int
+	id, seq   uint16
+	data      []byte
+}
+
+func refEcho(f []byte) (d dEcho, ok bool) {
+	if len(f) < 8 {
+		return d, false
+	}
+	return dEcho{typ: f[0], code: f[1], cksum: u16(f, 2), id: uint16(u16(f, 4)), seq: uint16(u16(f, 6)), data: f[8:]}, true
+}
+
+type dND struct {
+	typ, code, flags byte
+	target           []byte
+	opts             map[byte][]byte // first option of each type, body without type/length
+}
+
+// RFC 4861: NS/NA = 4 bytes ICMPv6 header, 4 bytes flags/reserved, 16 bytes target, options (type, len*8)
+func refND(f []byte) (d dND, ok bool) {
+	if len(f) < 24 {
+		return d, false
+	}
+	d = dND{typ: f[0], code: f[1], flags: f[4], target: f[8:24], opts: map[byte][]byte{}}
+	o := f[24:]
+	for len(o) > 0 {
+		if len(o) < 2 || o[1] == 0 || int(o[1])*8 > len(o) {
+			return d, false
+		}
+		n := int(o[1]) * 8
+		if _, dup := d.opts[o[0]]; !dup {
+			d.opts[o[0]] = o[2:n]
+		}
+		o = o[n:]
+	}
+	return d, true
+}
+
+type dDNSQ struct {
+	id, flags, qd, an, ns, ar uint16
+	name                      []byte // wire form including the root label
+	qtype, qclass             uint16
+	trailing                  int
+}
+
+// RFC 1035 4.1: header, one question with an uncompressed name
+func refDNSQuery(f []byte) (d dDNSQ, ok bool) {
+	if len(f) < 12 {
+		return d, false
+	}
+	i := 12
+	for {
+		if i >= len(f) {
+			return d, false
+		}
+		l := int(f[i])
+		if l == 0 {
+			i++
+			break
+		}
+		if l > 63 || i+1+l > len(f) {
+			return d, false
+		}
+		i += 1 + l
+	}
+	if i+4 > len(f) {
+		return d, false
+	}
+	return dDNSQ{id: uint16(u16(f, 0)), flags: uint16(u16(f, 2)), qd: uint16(u16(f, 4)), an: uint16(u16(f, 6)),
+		ns: uint16(u16(f, 8)), ar: uint16(u16(f, 10)), name: f[12:i], qtype: uint16(u16(f, i)), qclass: uint16(u16(f, i+2)),
+		trailing: len(f) - i - 4}, true
+}
+
+type dOpt struct {
+	k byte
+	v []byte
+}
+type dDHCP struct {
+	op, htype, hlen, hops          byte
+	xid                            []byte
+	secs, flags                    int
+	ciaddr, yiaddr, siaddr, giaddr []byte
+	chaddr, sname, file            []byte
+	opts                           []dOpt // wire order
+	pad                            []byte // after End
+}
+
+// RFC 2131 fixed format + magic cookie, RFC 2132 options (Pad, End, code/len/value); End is required
+func refDHCP(f []byte) (d dDHCP, ok bool) {
+	if len(f) < 241 || !eq(f[236:240], []byte{99, 130, 83, 99}) {
+		return d, false
+	}
+	d = dDHCP{op: f[0], htype: f[1], hlen: f[2], hops: f[3], xid: f[4:8], secs: u16(f, 8), flags: u16(f, 10),
+		ciaddr: f[12:16], yiaddr: f[16:20], siaddr: f[20:24], giaddr: f[24:28], chaddr: f[28:44], sname: f[44:108], file: f[108:236]}
+	o := f[240:]
+	for {
+		if len(o) == 0 {
+			return d, false
+		}
+		if o[0] == 255 {
+			d.pad = o[1:]
+			return d, true
+		}
+		if o[0] == 0 {
+			o = o[1:]
+			continue
+		}
+		if len(o) < 2 || len(o) < 2+int(o[1]) {
+			return d, false
+		}
+		d.opts = append(d.opts, dOpt{o[0], o[2 : 2+int(o[1])]})
+		o = o[2+int(o[1]):]
+	}
+}
